@@ -94,7 +94,7 @@ impl RelationToQueryTranslator for HiveTranslator {
             .zip(join.schema().iter())
             .map(|(expr, field)| ast::SelectItem::ExprWithAlias {
                 expr,
-                alias: field.name().into(),
+                alias: self.identifier(&(field.name().into()))[0].clone(),
             })
             .collect()
     }
